@@ -68,7 +68,7 @@ static Verdict runCase(const Case& c, Info& info)
     for (size_t i = 0; i < n; ++i)
     {
         OutputSink out;
-        runWorkload(c.workloads[i], out, proto);
+        runWorkloadT<true>(c.workloads[i], out, proto);
         reference[i] = out.digest;
     }
     const int reps = std::max<int>(1, c.repetitions);
@@ -85,7 +85,7 @@ static Verdict runCase(const Case& c, Info& info)
             for (int r = 0; r < reps; ++r)
             {
                 OutputSink out;
-                runWorkload(c.workloads[i], out, proto);
+                runWorkloadT<true>(c.workloads[i], out, proto);
                 got[i][static_cast<size_t>(r)] = out.digest;
             }
         });
